@@ -145,7 +145,9 @@ struct ConfigWorld : World {
 				std::string val(vl, 'v'); for (size_t i = 0; i < vl; ++i) val[i] = (char) ('a' + (op.c + i) % 26);
 				Block pb(ps.size() + 1, 0); memcpy(pb.p, ps.c_str(), ps.size() + 1);
 				Block vb(vl + 1, 0); memcpy(vb.p, val.c_str(), vl + 1);
-				int rc; { Sut s(failn); rc = mpt_config_set(conf, (const char *) pb.p, (const char *) vb.p, sep, 0); fired = g.fired; }
+				int rc; bool cxx = conf && (op.c & 2);
+				{ Sut s(failn); if (cxx) rc = conf->set((const char *) pb.p, (const char *) vb.p, sep) ? 0 : -1; else rc = mpt_config_set(conf, (const char *) pb.p, (const char *) vb.p, sep, 0); fired = g.fired; }
+				if (cxx) st.hit("probe:cxx_config_set");
 				log.ev("ASSIGN holder %d '%s' := %zu bytes%s -> %d", holder, short_path(rel).c_str(), vl, fired ? " allocfail" : "", rc);
 				if (rc < 0) {
 					if (!fired) fail("refused-valid", "assignment of %zu bytes to '%s' through holder %d refused (%d) without allocation fault", vl, short_path(rel).c_str(), holder, rc);
@@ -179,7 +181,7 @@ struct ConfigWorld : World {
 			}
 			case OP_REMOVE: {
 				Block pb(ps.size() + 1, 0); memcpy(pb.p, ps.c_str(), ps.size() + 1);
-				int rc; { Sut s; rc = mpt_config_set(conf, (const char *) pb.p, 0, sep, 0); }
+				int rc = 0; if (conf && (op.c & 2)) { Sut s; conf->del((const char *) pb.p, sep, (op.c & 4) ? (int) ps.size() : -1); st.hit("probe:cxx_config_del"); } else { Sut s; rc = mpt_config_set(conf, (const char *) pb.p, 0, sep, 0); }
 				log.ev("REMOVE holder %d '%s' -> %d", holder, short_path(rel).c_str(), rc);
 				PathV par(abs.begin(), abs.end() - 1);
 				MNode *pn = find(model[store], par, false);
